@@ -29,13 +29,13 @@ func (c *ProxyConfig) setRestartNeededProps() {
 }
 
 func (c *ProxyConfig) verify() error {
-	if err := verifyListenAddress("proxy.listen", c.Listen.Read()); err != nil {
+	if err := verifyListenAddress("proxy.listen", c.Listen.pending()); err != nil {
 		return err
 	}
-	if c.CaCert.Read() == "" {
+	if c.CaCert.pending() == "" {
 		return fmt.Errorf("proxy.ca_cert cannot be empty")
 	}
-	if c.CaKey.Read() == "" {
+	if c.CaKey.pending() == "" {
 		return fmt.Errorf("proxy.ca_key cannot be empty")
 	}
 	return nil
